@@ -221,6 +221,11 @@ def loops(n):
      "via-dict-call": (f"{E(n)} (ㄱ ({dec} (ㄴ (ㄴ ㄱㅇ ㅅㅈㅎㄷ) ㅎㄴ) ㅎㄴ) ({z}) ㅎㄷ ㅎ) ㅎㄴ", "0"),
      "via-collect":  (f"{E(n)} (ㄱ ((({dec}) ㅁㄹㅎㄴ) (ㄱㅇ ㅁㅂㅎㄴ) ㅎㄴ) ({z}) ㅎㄷ ㅎ) ㅎㄴ", "0"),
      "nested-selection": (f"{E(n)} (ㄱ (ㄱ ({dec} ㄱㅇ ㅎㄴ) (ㄱㅇㄱ ㄱ ㅈㅎㄷ) ㅎㄷ) ({z}) ㅎㄷ ㅎ) ㅎㄴ", "0"),
+     # the tail call is what the LAST step of a fold / the only element's map-free application hands back: f(k) = fold(\\a b. (k==0)(0, f(k-1)), [0, 0]) in both directions
+     "via-fold-right": (f"{E(n)} ((ㄱ ㄱ ㅁㄹㅎㄷ) (ㄱ (ㄱㅇㄴ ㄴㄱ ㄷㅎㄷ ㄴㅇ ㅎㄴ) (ㄱㅇㄴ ㄱ ㄴㅎㄷ) ㅎㄷ ㅎ) ㅅㄹㅎㄷ ㅎ) ㅎㄴ", "0"),
+     "via-fold-left":  (f"{E(n)} ((ㄱ (ㄱㅇㄴ ㄴㄱ ㄷㅎㄷ ㄴㅇ ㅎㄴ) (ㄱㅇㄴ ㄱ ㄴㅎㄷ) ㅎㄷ ㅎ) ㄱ (ㄱ ㅁㄹㅎㄴ) ㅅㄹㅎㄹ ㅎ) ㅎㄴ", "0"),
+     # ... and through the body of a try that does not fail, and through a function whose function part is itself computed by a call
+     "via-computed-function": (f"{E(n)} (ㄱ ({dec} ((ㄱㅇ) (ㄱㅇㄱ ㅎ) ㅎㄴ) ㅎㄴ) ({z}) ㅎㄷ ㅎ) ㅎㄴ", "0"),
      # loop(k) = (k==0)(return 0, bind(an action that FAILS, return, \\e. loop(k-1))): the back edge goes through the REJECT handler - the action it returns is the next iteration
      "io-bind-reject": (f"{E(n)} ((ㄱ ㄱㅅㅎㄴ) (((ㄱ ㄱㅅㅎㄴ) ((ㄱ ㄷㅂㅎㄴ ㄷㅈㅎㄴ) ㅎ) ㄱㄹㅎㄷ) ㄱㅅ ((ㄱㅇㄴ ㄴㄱ ㄷㅎㄷ) ㄴㅇ ㅎㄴ ㅎ) ㄱㄹㅎㄹ) ({z}) ㅎㄷ ㅎ) ㅎㄴ", "0"),
      "io-bind":      (f"{E(n)} ((ㄱ ㄱㅅㅎㄴ) ((ㄱ ㄱㅅㅎㄴ) ((ㄱㅇㄴ ㄴㄱ ㄷㅎㄷ) ㄴㅇ ㅎㄴ ㅎ) ㄱㄹㅎㄷ) ({z}) ㅎㄷ ㅎ) ㅎㄴ", "0"),      # loop(k) = (k==0)(return 0, return 0 >>= \\_. loop(k-1))
@@ -236,6 +241,22 @@ def countdown_shape_ok(n):
     want = ["call", ["fundef", ["call", cond, [rec, ["lit", 0]]]], [["lit", n]]]
     asts = parse.parse("<t>", loops(n)["proved-countdown"][0])
     return len(asts) == 1 and shrink._tree(asts[0], AS) == want
+
+def nesting_ladders(r, seed, tier, model_ok):
+    """deep DATA rather than deep calls: lists nested 50..2000 deep printed / compared, left-nested bind chains executed, nested tries - the
+    printer, the deep forcing, the key computation and the executor recurse on the host stack and must end in a value, a language-level
+    exception or the evaluator's own limit report, never in the host's RecursionError"""
+    nest = []
+    for dep in [50, 200, 500, 2000]:
+        nest.append((f"nested-list-print depth {dep}", "ㄴ" + " ㅁㄹㅎㄴ" * dep))
+        nest.append((f"nested-list-compare depth {dep}", "(ㄴ" + " ㅁㄹㅎㄴ" * dep + ") (ㄴ" + " ㅁㄹㅎㄴ" * dep + ") ㄴㅎㄷ"))
+        nest.append((f"left-nested-bind depth {dep}", "(ㄴ ㄱㅅㅎㄴ)" + " (ㄱㅇㄱ ㄱㅅㅎㄴ ㅎ) ㄱㄹㅎㄷ" * dep))
+        nest.append((f"nested-try depth {dep}", "ㄴ" + " (ㄱㅇㄱ ㅎ) ㅅㄷㅎㄷ" * dep))
+    nout = pmap(_ladder_one, [dict(text=t, reclimit=1000, tlimit=60) for _, t in nest], chunksize=1)
+    bad2 = []
+    for (tag, t), o in zip(nest, nout):
+        if o[0].startswith("HOST"): bad2.append(dict(program=tag + ": " + t[:60] + " ...", impl=o[0], model="a value, a language-level exception or the explicit limit", which=["host-recursion"]))
+    r.slice("nesting_ladders", len(nest), len(nest), [nest[0][1][:80]], {tag: o[0][:60] for (tag, _), o in zip(nest, nout)}, "data / bind / try nesting depth 50..2000 under the default host recursion limit", bad2)
 
 def c05_ladders(r, seed, tier, model_ok):
     """iteration ladder N = 10 .. 10^5 (10^6 thorough) x six tail-loop shapes x {with, without observer}, each run under
@@ -287,19 +308,8 @@ def c05_ladders(r, seed, tier, model_ok):
         bad.append(dict(program=loops(800)["proved-countdown"][0], impl=f"peak live evaluator frames by N: {pf}", model="4 at N = 0 and 5 for every N >= 1 (Loops2.countdown_main: demand depth <= 5 for every N)", which=["frames-vs-theorem"]))
     fr["proved-countdown-by-N"] = pf
     r.slice("iteration_ladders", len(cases), len(cases), [cases[0]["text"], cases[7]["text"]], dict(table=table, observer_max_depth=depths, peak_live_frames_at_50_200_800=fr, host_recursion_limit=400),
-            "sixteen tail-loop families (self, accumulator, through identity / selector / pipes / list / dictionary / collect calls, nested selection, mutual, I/O bind; one of them the program of the theorem countdown_constant_depth) x N in 10..10^5(6) x observer on/off under recursion limit 400; non-tail depths across the frame limit; distinct = all cases", bad)
-    # nesting ladders: host recursion in formatter / recursive_strict / as_key / _bind is a KNOWN finding; any OTHER site is a violation
-    nest = []
-    for dep in [50, 200, 500, 2000]:
-        nest.append((f"nested-list-print depth {dep}", "ㄴ" + " ㅁㄹㅎㄴ" * dep))
-        nest.append((f"nested-list-compare depth {dep}", "(ㄴ" + " ㅁㄹㅎㄴ" * dep + ") (ㄴ" + " ㅁㄹㅎㄴ" * dep + ") ㄴㅎㄷ"))
-        nest.append((f"left-nested-bind depth {dep}", "(ㄴ ㄱㅅㅎㄴ)" + " (ㄱㅇㄱ ㄱㅅㅎㄴ ㅎ) ㄱㄹㅎㄷ" * dep))
-        nest.append((f"nested-try depth {dep}", "ㄴ" + " (ㄱㅇㄱ ㅎ) ㅅㄷㅎㄷ" * dep))
-    nout = pmap(_ladder_one, [dict(text=t, reclimit=1000, tlimit=60) for _, t in nest], chunksize=1)
-    bad2 = []
-    for (tag, t), o in zip(nest, nout):
-        if o[0].startswith("HOST"): bad2.append(dict(program=tag + ": " + t[:60] + " ...", impl=o[0], model="a value, a language-level exception or the explicit limit", which=["host-recursion"]))
-    r.slice("nesting_ladders", len(nest), len(nest), [nest[0][1][:80]], {tag: o[0][:60] for (tag, _), o in zip(nest, nout)}, "data / bind / try nesting depth 50..2000 under the default host recursion limit", bad2)
+            "nineteen tail-loop families (self, accumulator, through identity / selector / pipes / list / dictionary / collect calls, nested selection, mutual, I/O bind; one of them the program of the theorem countdown_constant_depth) x N in 10..10^5(6) x observer on/off under recursion limit 400; non-tail depths across the frame limit; distinct = all cases", bad)
+    nesting_ladders(r, seed, tier, model_ok)
     if model_ok:
         mc = [dict(text=t) for n in (10, 100) for t, _ in loops(n).values()] + [dict(text=nontail(50))]
         a = vlib.impl_run(mc); b = vlib.model_run(mc); dist, bad3 = vlib.compare(mc, a, b)
